@@ -225,6 +225,25 @@ pub fn build(t: &Term, w: &W) -> O {
         }
       })
     }
+    // cold source that emits its script from a NEW logical thread started at subscribe time (concurrent cases)
+    "acold" => {
+      let scripts = t.scripts.clone();
+      Observable::create(move |s: Observer<'static, i64>| {
+        let sc = scripts[0].clone();
+        arx_vstd::rt::emit(serde_json::json!({"ev": "acsub", "src": a}).to_string());
+        arx_vstd::thread::spawn(move || {
+          for e in sc.iter() {
+            arx_vstd::rt::emit(serde_json::json!({"ev": "emitcall", "src": a, "k": e.k, "v": e.v, "issub": s.is_subscribed() as i64}).to_string());
+            match e.k.as_str() {
+              "n" => s.next(e.v),
+              "e" => s.error(err(e.v)),
+              _ => s.complete(),
+            }
+            arx_vstd::rt::emit(serde_json::json!({"ev": "emitret", "src": a, "k": e.k, "v": e.v}).to_string());
+          }
+        });
+      })
+    }
     "subject" | "rawsubject" => {
       let s = w.lock().unwrap().sbj[a as usize - 1].clone();
       s.observable()
@@ -275,6 +294,7 @@ pub fn build(t: &Term, w: &W) -> O {
           "inc" => x + a,
           "mul" => x * a,
           "const" => a,
+          "mod" => x % a,
           _ => x,
         }
       })
@@ -383,6 +403,12 @@ pub fn build(t: &Term, w: &W) -> O {
             }
           }
           "probe2" => build(&Term::leaf("probe", 2), &w),
+          // inner observable that emits 10x+1 and completes from a new logical thread
+          "acold" => {
+            let mut t = Term::leaf("acold", x);
+            t.scripts = vec![vec![Ev { k: "n".into(), v: 10 * x + 1 }, Ev { k: "c".into(), v: 0 }]];
+            build(&t, &w)
+          }
           _ => observables::empty(),
         }
       })
